@@ -37,7 +37,11 @@ def mutate(rng, text):
                                               text.replace('encoding="UTF-8"', 'encoding="utf-8"', 1),
                                               text.replace('<?xml version="1.0" encoding="UTF-8"?>',
                                                            "<?xml version='1.0' encoding='UTF-8'?>  ", 1),
-                                              '\n' + text])
+                                              '\n' + text,
+                                              text.replace('<?xml version=', '<?xml\tversion=', 1),
+                                              text.replace('<?xml version="1.0" encoding', '<?xml  version="1.0"   encoding', 1),
+                                              text.replace('<?xml version="1.0" encoding="UTF-8"?>',
+                                                           '<?xml version="1.0" encoding="UTF-8" ?>', 1)])
         elif k == 'header_doctype':
             return 'header_doctype', rng.choice([re.sub(r'<!DOCTYPE[^>]*>\n', '', text, count=1),
                                                  text.replace('WN-LMF-1.', 'WN-LMF-9.', 1),
